@@ -4,6 +4,7 @@ proved against the specification; Eigen is compared with the model and with Naiv
 import pv
 from engines import tensor_common as tc
 from engines import tensor_gen as g
+from engines import eigen_scalar
 
 
 EXP_CLAMP_LO, LN_FLT_MAX = 88.3762626647949, 88.7228394
@@ -77,6 +78,9 @@ def regenerate_pairs(ctx):
 def run(ctx):
     ctx.level = "translation_validation"
     summ_pairs = regenerate_pairs(ctx)
+    # elementwise kernels: both backends' formulas are regenerated (Gen/ScalarGen.v, Gen/ScalarGenEigen.v);
+    # ctx.prove() re-checks Props/Properties_C08_elementwise.v (efw_<k> = fw_<k> for all reals) against them
+    elem_tables = eigen_scalar.regenerate(ctx)
     res = ctx.prove()
     drifted = [k for k in SHARED if k not in summ_pairs["same"]]
     n = 6000 if ctx.quick() else 80000
@@ -84,6 +88,9 @@ def run(ctx):
                                exhaustive_ops=("sum_fw", "max_fw", "flip_fw", "argmax", "max_bw", "flip_bw"))
     cases2, bad2 = tc.run_stream(ctx, "tensor-all-naive", g.ALL_OPS, n // 2, backend="naive")
     elem_pairs(ctx)
+    # both regenerated formulas in double + both real kernels on a grid containing the kinks: when an
+    # elementwise theorem broke, this is the aimed search for the failing input (reported with both real values)
+    elem_summ = eigen_scalar.search(ctx, elem_tables, res)
     summ = tc.optional_part(ctx, "progcheck", "run_mode", "backend", 3000 if ctx.quick() else 40000)
     if summ is not None:
         ctx.cov["program_level"] = summ
@@ -96,12 +103,20 @@ def run(ctx):
             tc.run_stream(ctx, "tensor-drifted-naive", ops, 4000 if ctx.quick() else 40000, backend="naive")
     if not res["ok"] and not ctx.violations:
         ctx.proof_broken({"drifted_shared_kernels": drifted,
-                          "meaning": "the two backends' copies of these kernels are no longer the same statements; the correspondence runs found no input on which they differ"})
+                          "elementwise_formulas_differing_over_R": elem_summ["formulas_differing_over_R"],
+                          "elementwise_untranslatable": elem_tables["eigen"]["errors"] + elem_tables["naive"].get("errors", []),
+                          "meaning": "shared kernels: the two backends' copies are no longer the same statements; elementwise kernels: the Eigen expression and the Naive "
+                                     "expression are no longer provably the same real function (points where the two formulas differ in double are listed; the real kernels "
+                                     "agree there within float32 tolerance); the correspondence runs, the pair grid and the focused grid found no input on which the backends differ"})
     ctx.cov["programs"] = len(cases) + len(cases2)
     ctx.cov["disagreements_checked"] = len(bad) + len(bad2)
     ctx.cov["rule"] = ("programs = single Device entry-point calls (forward, backward, in-place, argmax/argmin) with exact integer data executed on devices::Eigen and on devices::Naive and "
                        "compared bitwise with the extracted index-program model (hence with each other), same accept/reject and shapes; plus whole random programs on both backends (program_level) when available")
     ctx.cov["explanation"] = ("theorem part: the 21 kernels both backends share are, in the current tree, the same C++ statements (regenerated Gen/BackendPairs.v, Backend/SameSource.v); "
-                              "no theorem is possible about Eigen's expression templates: for the other kernels the property is decided by validating each backend against the common proved model on the same inputs")
-    ctx.assumptions += ["Eigen internals are not modelled; agreement is established per executed case only",
+                              "the 66 elementwise formulas (19 kernel files) are, over the reals, the same function on both backends (regenerated Gen/ScalarGenEigen.v + Gen/ScalarGen.v, Backend/EigenElem.v); "
+                              "float32 rounding, Eigen's packet math and the range edges are not in the theorems: pair grid. For the remaining kernels (matmul, transpose, flip, batch_sum, in-place updates, "
+                              "copies) the property is decided by validating each backend against the common proved model on the same inputs")
+    ctx.assumptions += ["elementwise theorems: the pointwise reading of an Eigen array expression (a.exp() -> exp a, (c).select(t,e) -> if c then t else e, a.sign() -> (a>0)-(a<0), ...; "
+                        "coq/Backend/EigenBase.v) is trusted and validated on every run by evaluating the generated formulas against the real Eigen kernels; exact real arithmetic, no rounding",
+                        "Eigen internals are not modelled; outside the elementwise formulas agreement is established per executed case only",
                         "float streams (libm-based kernels) are compared with tolerance in the scalar/program parts; data movement and exact integer streams bitwise"]
